@@ -308,7 +308,7 @@ func (dht *IpfsDHT) optimisticProvide(outerCtx context.Context, keyMH multihash.
   ghostvar $lookupOK bool = false
   modifies *
   ensures [internal-puts-outlive-the-call] imp($lookupOK, !$cancelled)
-  loop over lookupRes.peers invariant es != nil && es.peerStates != nil && held(es.peerStatesLk)
+  loop over lookupRes.peers invariant es != nil && held(es.peerStatesLk)
   loop over lookupRes.peers invariant [every-returned-peer-scheduled] all(j, 0, $key, has(es.peerStates, lookupRes.peers[j]))
   ghost at call(putCtxCancel): $cancelled = true
   ghost at call(runLookupWithFollowup): $lookupOK = ($ret1 == nil)
